@@ -37,7 +37,10 @@ func loFindFile(L *LState, name, pname string) (string, string) {
 	messages := []string{}
 	for _, pattern := range strings.Split(string(path), ";") {
 		luapath := strings.Replace(pattern, "?", name, -1)
-		if _, err := os.Stat(luapath); err == nil {
+		// a candidate counts only if it can be opened for reading (Lua 5.1 readable()): one that
+		// exists but cannot be opened is listed and the search goes on
+		if f, err := os.Open(luapath); err == nil {
+			f.Close()
 			return luapath, ""
 		} else {
 			messages = append(messages, err.Error())
